@@ -685,6 +685,77 @@ def alias_used_before_rebinding(ctx):
                 ctx.event("alias_rebinding_checked")
 
 
+def failed_dumps(ctx, n):
+    """A dump that *fails* (an entry that cannot be encoded, in arrays of every length form and element kind and below
+    nested structures) changes nothing: the instance holds afterwards what it held before the attempt (no terminator
+    left behind, no entry lost), once the entry is put right it dumps what it dumped before, and a fresh parse and
+    another live instance are not affected."""
+    text = ("struct E { uint8 a; uint16 b; };\n"
+            "struct s { uint8 n; uint16 nt16[]; uint24 nt24[]; uleb128 ntleb[]; ileb128 ntsleb[]; E nts[]; uint32 fx[3]; uint8 cnt[n];\n"
+            "  int8 sg[2]; uint64 *ptrs[]; E one; E arr[2]; double fl[]; };")
+    BIG = 1 << 70
+    bad_for = {"nt16": BIG, "nt24": BIG, "ntleb": -5, "ntsleb": "x", "fx": -1, "cnt": 256, "sg": 128, "ptrs": -1, "fl": "x"}
+    for it in range(n):
+        rng = ctx.rng("failed-dumps", it)
+        endian, compiled = rng.choice("<>"), rng.random() < 0.5
+        det = {"text": text, "endian": endian, "compiled": compiled, "workload": "failed-dumps"}
+        ctx.cell("failed-dumps")
+        try:
+            cs = lib.load(text, endian, False, compiled)
+            E = cs.E
+
+            def ints(lo, hi, k):
+                return [rng.randrange(lo, hi) for _ in range(k)]
+
+            kw = dict(n=2, nt16=ints(1, 1 << 16, rng.randint(1, 4)), nt24=ints(1, 1 << 24, rng.randint(1, 3)),
+                      ntleb=ints(1, 1 << 40, rng.randint(1, 3)), ntsleb=[x or 1 for x in ints(-(1 << 20), 1 << 20, rng.randint(1, 3))],
+                      nts=[E(a=rng.randrange(1, 256), b=rng.randrange(1 << 16)) for _ in range(rng.randint(1, 3))],
+                      fx=ints(0, 1 << 32, 3), cnt=ints(0, 256, 2), sg=ints(-128, 128, 2), ptrs=ints(1, 1 << 64, rng.randint(1, 2)),
+                      one=E(a=1, b=2), arr=[E(a=3, b=4), E(a=5, b=6)], fl=[1.5, -2.25])
+            first = cs.s(**kw)
+            good = first.dumps()
+            other = cs.s(good)
+            for origin, o in (("constructed", first), ("parsed", cs.s(good))):
+                for step in range(6):
+                    m = rng.choice(list(bad_for) + ["nts.b", "one.b", "arr.a"])
+                    ctx.evaluation(("failed-dump", it, origin, step, m))
+                    if "." in m:
+                        name, fld = m.split(".")
+                        tgt = getattr(o, name)
+                        tgt = tgt[rng.randrange(len(tgt))] if isinstance(tgt, list) else tgt
+                        old = getattr(tgt, fld)
+                        setattr(tgt, fld, BIG)
+                        undo = lambda tgt=tgt, fld=fld, old=old: setattr(tgt, fld, old)  # noqa: E731
+                    else:
+                        lst = getattr(o, m)
+                        i = rng.randrange(len(lst))
+                        old = lst[i]
+                        lst[i] = bad_for[m]
+                        undo = lambda lst=lst, i=i, old=old: lst.__setitem__(i, old)  # noqa: E731
+                    before = lib.stable_repr(o)
+                    try:
+                        o.dumps()
+                        ctx.event("bad_entry_was_dumped")     # not this property's matter (C01 judges refusals)
+                        undo()
+                        continue
+                    except Exception:  # noqa: BLE001
+                        pass
+                    after = lib.stable_repr(o)
+                    undo()
+                    if after != before:
+                        ctx.violation("history", "failed-dump-changes-the-instance", dict(det, origin=origin, member=m, before=before[:400], after=after[:400]))
+                        raise StopIteration
+                    again = o.dumps()
+                    if again != good or other.dumps() != good or cs.s(good).dumps() != good or lib.stable_repr(cs.s(good)) != lib.stable_repr(other):
+                        ctx.violation("history", "dump-depends-on-a-failed-dump-before", dict(det, origin=origin, member=m, got=again.hex(), want=good.hex()))
+                        raise StopIteration
+                    ctx.event("failed_dumps_checked")
+        except StopIteration:
+            pass
+        except Exception as e:  # noqa: BLE001
+            ctx.violation("history", f"failed-dumps-workload-raises:{type(e).__name__}", dict(det, error=lib.exc_sig(e)))
+
+
 def run(ctx):
     if ctx.shard == 1:
         failed_evaluations(ctx)
@@ -696,6 +767,7 @@ def run(ctx):
     load_histories(ctx, 6 if not ctx.thorough else 120)
     copies(ctx, 10 if not ctx.thorough else 250)
     failed_loads(ctx, 8 if not ctx.thorough else 150)
+    failed_dumps(ctx, 3 if not ctx.thorough else 40)
     for i in range(N_HIST[ctx.tier]):
         if ctx.out_of_time():
             break
@@ -728,6 +800,9 @@ def replay(ctx, detail):
         return
     if detail.get("workload") == "failed-evaluations":
         failed_evaluations(ctx)
+        return
+    if detail.get("workload") == "failed-dumps":
+        failed_dumps(ctx, 40)
         return
     if detail.get("workload") == "alias-used-before-rebinding":
         alias_used_before_rebinding(ctx)
